@@ -3,6 +3,7 @@ functions by a small abstract interpretation; R-CONSTFOLD — constant folders a
 from __future__ import annotations
 
 import ast
+import re
 
 from ..irschema import Schema
 from ..pyfacts import Func, Repo, call_name, dotted_name, walk_no_nested_funcs
@@ -517,3 +518,65 @@ def control(repo):
     new = src.replace(a, "expression.type.integer.minimum_value = str(func(lmin, rmax))", 1)
     r2 = Repo(repo.root, overlay={EB: new})
     return bool(bounddir(r2).findings)
+
+
+def commsym(repo):
+    """R-COMMSYM (C05/C04): multiplication and $max are commutative, so their transfer functions must treat operand 0 and
+    operand 1 alike.  Whenever one operation (a call or a binary operator) combines an element `A[0]...` with an
+    element `B[1]...`, A and B must be the same list and the two paths below the index the same: pairing the reduced
+    modulus of one side with the raw modulus of the other (or a minimum with a maximum) gives a result that changes when
+    the operands are swapped — for the modulus of a product it claims more alignment than the value has."""
+    res = RuleResult("R-COMMSYM")
+    m = repo.mod("compiler/front_end/expression_bounds.py")
+    targets = [f for f in m.top_funcs() if f.name.startswith("_compute_constraints_of_") and
+               any(k in f.name for k in ("multiplicative", "maximum"))]
+    if not targets:
+        raise AnalysisError("expression_bounds: transfer functions of the commutative operators not found")
+
+    def indexed(e):
+        """(list source, index, suffix source) for A[0].x / int(A[1].y) shapes; None otherwise."""
+        wrappers = []
+        while isinstance(e, ast.Call) and len(e.args) == 1 and isinstance(e.func, ast.Name) and e.func.id in ("int", "abs", "str"):
+            wrappers.append(e.func.id)
+            e = e.args[0]
+        suffix = []
+        cur = e
+        while isinstance(cur, ast.Attribute):
+            suffix.append(cur.attr)
+            cur = cur.value
+        if isinstance(cur, ast.Subscript) and isinstance(cur.slice, ast.Constant) and cur.slice.value in (0, 1):
+            return ast.unparse(cur.value), cur.slice.value, ".".join(reversed(suffix)) + "|" + ",".join(wrappers)
+        return None
+
+    for f in targets:
+        for n in walk_no_nested_funcs(f.node):
+            pair = None
+            if isinstance(n, ast.BinOp):
+                pair = (n.left, n.right)
+            elif isinstance(n, ast.Call) and len(n.args) == 2:
+                pair = (n.args[0], n.args[1])
+            if not pair:
+                continue
+            a, b = indexed(pair[0]), indexed(pair[1])
+            if a is None and b is None:
+                continue
+            # one side indexed 0/1 of a list and the other not indexed at all, but derived from `bounds`/operands
+            res.instances += 1
+            if a is not None and b is not None and {a[1], b[1]} == {0, 1}:
+                if a[0] != b[0] or a[2] != b[2]:
+                    res.add(f"{m.rel}|{f.name}|{ast.unparse(n)[:60]}", f"{f.name}: `{ast.unparse(n)[:100]}` combines `{ast.unparse(pair[0])}` with "
+                            f"`{ast.unparse(pair[1])}` — different quantities of the two operands of a commutative operator; the result "
+                            "depends on operand order (for a product's modulus: a stronger alignment claim than the value supports)",
+                            m.rel, n.lineno, f.name)
+            elif (a is None) != (b is None):
+                other = pair[1] if a is not None else pair[0]
+                src = ast.unparse(other)
+                ia = a or b
+                if re.search(r"\[[01]\]", src) and ia[0] not in src:
+                    res.add(f"{m.rel}|{f.name}|{ast.unparse(n)[:60]}", f"{f.name}: `{ast.unparse(n)[:100]}` mixes an element of `{ia[0]}` with "
+                            f"`{src}`", m.rel, n.lineno, f.name)
+    if res.instances < 2:
+        raise AnalysisError(f"only {res.instances} paired-operand operations found")
+    res.samples = [f"{[f.name for f in targets]}: operand pairs are symmetric"]
+    res.analysed = [m.rel]
+    return res
